@@ -34,6 +34,11 @@ def eval_case(case):
     ver = "".join(digits(rng, 1, False) if t == "D" else t for t in x["version"])
     if x["version"][0] == "D" and len(x["version"]) > 1 and ver[0] == "0":
         ver = "1" + ver[1:]
+    if case.get("rseed", 0) % 11 == 3 and not ver[0].isdigit():
+        # a free-form version is any text: a line feed and a blank inside it (the model's id string is lengthened alike)
+        ver = ver[:1] + "\n " + ver[1:]
+        k = len(x["short"]) + 2
+        toks = toks[:k] + ["\n", " "] + toks[k:]
     bpver = "".join(digits(rng, 1, False) if t == "D" else t for t in x["bpversion"]) if x["layered"] else None
     date = "20" + digits(rng, 6, False)
     respin = int(digits(rng, x["rlen"]))
